@@ -69,7 +69,8 @@ class Profiles:
         'escape': r'{unicode}|\\[ -~\u0080-\u01ff]',
         #   'escape': r'{unicode}|\\[ -~\200-\4177777]',
         'int': r'[-]?\d+',
-        'nmchar': r'[\w-]|{nonascii}|{escape}',
+        # (unambiguous: a non-ASCII letter is taken by \w only)
+        'nmchar': r'[\w-]|(?!\w){nonascii}|{escape}',
         'num': r'[-]?\d+|[-]?\d*\.\d+',
         'positivenum': r'\d+|\d*\.\d+',
         'number': r'{num}',
@@ -600,7 +601,7 @@ properties[Profiles.CSS_LEVEL_2] = {
     'unicode-bidi': r'normal|embed|bidi-override|inherit',
     'vertical-align': r'baseline|sub|super|top|text-top|middle|bottom|text-bottom|{percentage}|{length}|inherit',
     'visibility': r'visible|hidden|collapse|inherit',
-    'voice-family': r'({specific-voice}|{generic-voice}{w},{w})*({specific-voice}|{generic-voice})|inherit',
+    'voice-family': r'(({specific-voice}|{generic-voice}){w},{w})*({specific-voice}|{generic-voice})|inherit',
     'volume': r'{number}|{percentage}|silent|x-soft|soft|medium|loud|x-loud|inherit',
     'white-space': r'normal|pre|nowrap|pre-wrap|pre-line|inherit',
     'widows': r'{integer}|inherit',
